@@ -36,6 +36,14 @@ impl<T> CloneOutput<T> {
         T: AsyncWrite + AsyncSeek + Unpin + Send,
     {
         if let Some(location) = self.clone_index.remove(verified.hash()) {
+            if verified.len() != location.size() {
+                // The hash matches but the chunk is not of the size recorded for
+                // its place in the output. Writing it would reach into other chunks.
+                return Err(io::Error::new(
+                    io::ErrorKind::InvalidData,
+                    "chunk size does not match the size expected by the output",
+                ));
+            }
             Ok(self.write_offset(location.offsets(), verified).await?)
         } else {
             Ok(0)
